@@ -601,6 +601,19 @@ pub fn judge_c14(cx: &DeliveryCtx, out: &mut RunOut) {
     if !finished(cx) {
         return;
     }
+    if cx.body_failed {
+        // the body transport failed before anything else: the provider is never consulted and the
+        // transport's own error comes back (it is not a SignatureError: outside C13's statement)
+        out.probe("body_transport_failed_first");
+        if touched {
+            out.violate("C14", "provider-untouched-by-defective-requests", format!("the request body never arrived, yet the provider was consulted; {}", ctx_line(cx)));
+        }
+        match cx.out.err() {
+            Some(e) if e.display.starts_with("BODY-TRANSPORT") => {}
+            _ => out.violate("C14", "provider-failure-never-authenticates", format!("the request body never arrived, outcome {}; {}", cx.out.short(), ctx_line(cx))),
+        }
+        return;
+    }
     // provider errors pass through / wrap: judged on what the provider actually answered to this
     // validation (recorded history), not on what the reference expected to happen
     let prov_err: Option<&Answer> = match (&cx.script.ready_err, &cx.script.answer) {
